@@ -1,8 +1,10 @@
 import ArgoVerif.Proofs.TQ
 import ArgoVerif.Gen.PoolEnds
 import ArgoVerif.Gen.Consts
+import ArgoVerif.Proofs.PoolConcH
 /-
-Props.C07 — built-in pools are queues (sequential / data-structure half).
+Props.C07 — built-in pools are queues: the sequential / data-structure half first, the concurrent half
+(`Model.PoolConc`: lock discipline, lock-free emptiness pre-checks, linearisation points) at the end of the file.
 
 `thread_queue_t` (src/pool/thread_queue.h) is the only state under FIFO, FIFO_WAIT and RANDWS
 pools; every pool function is "take the pool's lock, call thread_queue_*, release".  This file
@@ -275,5 +277,230 @@ example :
 
 example : (lookup table .randws .mpmc .push).map (·.fn) = some "pool_push_shared" ∧
     (lookup table .randws .priv .popMany).map (fun e => enabled e.sites 0x200) = some [.popTail] := by decide
+
+end ArgoVerif.Props.C07
+
+/-! ## concurrent half: one pool under any number of concurrent callers (`Model.PoolConc`) -/
+
+namespace ArgoVerif.Props.C07
+open ArgoVerif ArgoVerif.Model.PoolConc
+open ArgoVerif.Model.TQ (specRun specStep specRun_good specRun_count specRun_fifo pushedOf leftOf FifoOp Good)
+open ArgoVerif.Model.Pool (Kind Access Slot lookup)
+
+/-- **mutual exclusion.**  In every reachable state of a pool — any number of actors, any interleaving of their atomic
+steps, spinlock kinds (FIFO, RANDWS) and the mutex kind (FIFO_WAIT), shared and private callbacks — at most one actor is
+between taking the pool's lock and releasing it (private callbacks: between call and return): the program counters
+`csPush … rel` at which `thread_queue_*` code runs are occupied by one actor at a time. -/
+theorem pool_mutual_exclusion {cfg : Cfg} {s : St} (hr : (machine cfg).Reachable s) {a b : Actor}
+    (ha : InCS (s.pc a)) (hb : InCS (s.pc b)) : a = b := by
+  have hi := inv_reachable hr
+  have h1 := hi.csOwner a ha
+  have h2 := hi.csOwner b hb
+  rw [h1] at h2
+  exact Option.some.inj h2
+
+/-- **every queue mutation happens while the caller holds the pool's lock.**  For the lock-taking callbacks (every access
+mode but PRIV; FIFO_WAIT always): whenever a step that reads or writes the ring — hook 25 link, hook 26 select/unlink,
+hook 27 remove, the guards of remove, the `is_empty` / `is_in_pool` publications — is taken in a reachable state, the
+stepping actor owns the lock, the lock word is set, and it is inside the critical section. -/
+theorem pool_mutation_requires_lock {cfg : Cfg} {s s' : St} {e : Ev} (hr : (machine cfg).Reachable s)
+    (hsh : cfg.shared = true) (hm : isMutation e = true) (hs : step cfg s e = some s') :
+    s.owner = some (actorOf e) ∧ s.lock = true ∧ InCS (s.pc (actorOf e)) := by
+  have hi := inv_reachable hr
+  obtain ⟨ho, hc⟩ := mutation_owner hm hs
+  refine ⟨ho, ?_, hc⟩
+  cases hl : s.lock
+  · have := hi.lockOwner hsh hl; rw [this] at ho; simp at ho
+  · rfl
+
+/-- **linearizability (refinement form).**  In every reachable state the ghost history — one deque operation per
+linearisation step (push: its `is_in_pool := 1` store; pop / pop_many element / pop_wait: hook 26; remove: hook 27 or the
+failing guard), in the order in which those steps happened — is a legal *sequential* history of the deque specification
+(`specRun` of `Proofs.TQ`, the same specification the pointer-level ring refines) from the empty queue, with exactly the
+recorded results, ending in the pool's current content. -/
+theorem pool_linearizable {cfg : Cfg} {s : St} (hr : (machine cfg).Reachable s) :
+    specRun [] s.linOps = some (s.q, s.linOuts) :=
+  (inv_reachable hr).lin
+
+/-- **a pop returns exactly what it removed at its linearisation point.**  Hook 26 appends `pop_head`/`pop_tail` with the
+unit it selected (`0` = NULL, iff the queue is empty at that step) to the history and that unit to the call's result list;
+`pool_op_result_recorded` says the call returns that list.  So a `pop_many` cannot report a unit it did not take. -/
+theorem pool_pop_linearized {cfg : Cfg} {s s' : St} {a : Actor} {r : Nat} {hd : Bool} (hr : (machine cfg).Reachable s)
+    (hs : step cfg s (.take a r hd) = some s') :
+    s'.linOps = s.linOps ++ [popOp (tailOf (s.cur a))] ∧ s'.linOuts = s.linOuts ++ [.popped r] ∧
+    s'.got a = s.got a ++ (if r = 0 then [] else [r]) ∧ (r = 0 ↔ s.q = []) :=
+  take_linearized (inv_reachable hr) hs
+
+/-- a push enters the history (and the content, at the end its context selects) at its last atomic step -/
+theorem pool_push_linearized {cfg : Cfg} {s s' : St} {a : Actor} {u : Nat}
+    (hs : step cfg s (.storeIn a u true) = some s') :
+    s'.linOps = s.linOps ++ [pushOp u (headOf (s.cur a))] ∧ s'.linOuts = s.linOuts ++ [.unit] ∧
+    s'.q = (if headOf (s.cur a) then u :: s.q else s.q ++ [u]) :=
+  push_linearized hs
+
+/-- a successful remove enters the history at hook 27 -/
+theorem pool_remove_linearized {cfg : Cfg} {s s' : St} {a : Actor} {u : Nat} (hs : step cfg s (.unlink a u) = some s') :
+    s'.linOps = s.linOps ++ [.remove u] ∧ s'.linOuts = s.linOuts ++ [.rc .success] ∧ s'.rcOk a = true ∧
+    s.cur a = .remove u :=
+  remove_linearized hs
+
+/-- the value a call returns is the one its linearisation steps recorded (units taken, remove's code) -/
+theorem pool_op_result_recorded {cfg : Cfg} {s s' : St} {a : Actor} {r : Res} (hs : step cfg s (.ret a r) = some s') :
+    r = resultOf s a :=
+  ret_recorded hs
+
+/-- **each pushed unit is handed out at most once per push, none is invented.**  In every reachable state the multiset of
+units whose push was linearised equals the multiset of units handed out by linearised pops / removes plus the current
+content, and the content has no duplicates. -/
+theorem pool_each_pushed_popped_once {cfg : Cfg} {s : St} (hr : (machine cfg).Reachable s) :
+    (pushedOf s.linOps).Perm (leftOf s.linOps s.linOuts ++ s.q) ∧ s.q.Nodup := by
+  have hl := pool_linearizable hr
+  have hg : Good ([] : List Nat) := good_nil
+  refine ⟨List.perm_iff_count.mpr (fun a => ?_), (specRun_good hg hl).1⟩
+  have := specRun_count hg hl a
+  simp only [List.count_nil, Nat.zero_add, List.count_append] at this ⊢
+  exact this
+
+/-- **FIFO order under concurrency.**  If only tail pushes and head pops were linearised (FIFO and FIFO_WAIT pools:
+`pool_kind_ends`; RANDWS without head / tail contexts) and nothing was removed, the units handed out followed by the
+current content are the pushes in linearisation order. -/
+theorem pool_fifo_order {cfg : Cfg} {s : St} (hr : (machine cfg).Reachable s) (hf : ∀ op ∈ s.linOps, FifoOp op) :
+    leftOf s.linOps s.linOuts ++ s.q = pushedOf s.linOps := by
+  have := specRun_fifo good_nil hf (pool_linearizable hr)
+  simpa using this.symm
+
+/-- **a pop returns nothing only if the pool was empty at some instant during the call.**  Whenever, after any run
+`tr`, a pop-like call of actor `a` is about to return fewer units than it asked for (pop / pop_wait / pop_timedwait:
+nothing; pop_many: fewer than `max`), the run has a prefix ending in a state whose content is empty and in which that
+very call is already in progress (`a` starts no call in the remainder of the run).  This covers the lock-free
+`is_empty` pre-checks (which may be stale by the time the caller acts on them) as well as the locked paths. -/
+theorem pool_pop_empty_only_if_empty_instant {cfg : Cfg} {tr : List Ev} {s : St} {a : Actor}
+    (hrun : (machine cfg).run init tr = some s) (hpc : s.pc a = .retp ∨ s.pc a = .wIdle)
+    (hpl : isPopLike (s.cur a) = true) (hlt : (s.got a).length < wants (s.cur a)) :
+    EmptyInstant cfg tr a := by
+  have hi := inv_run hrun
+  have hidle : s.pc a ≠ .idle := by cases hpc with
+    | inl e => simp [e]
+    | inr e => simp [e]
+  have hcg := hi.cntGot a hpl hidle
+  have hse := hi.emptySeen a hpl (by cases hpc with
+    | inl e => exact Or.inl e
+    | inr e => exact Or.inr (Or.inr e))
+  cases hse with
+  | inl h0 => omega
+  | inr h1 => exact sawEmpty_witness tr hrun h1
+
+/-- **remove fails only if the unit was not in the pool** at the observation that made it fail (the lock-free
+`is_empty` / `is_in_pool` pre-checks of FIFO_WAIT, or the guards under the lock), within the call. -/
+theorem pool_remove_fails_only_if_absent {cfg : Cfg} {s : St} {a : Actor} (hr : (machine cfg).Reachable s)
+    (hpc : s.pc a = .retp) (hrm : isRemove (s.cur a) = true) : s.rcOk a = true ∨ s.sawAbsent a = true :=
+  (inv_reachable hr).rmSeen a hrm (Or.inl hpc)
+
+/-- **emptiness is exact whenever the pool is quiescent**: when no call is in progress, `is_empty` is 1 iff the pool has
+no unit, and every unit in the pool has `is_in_pool = 1`. -/
+theorem pool_quiescent_exact {cfg : Cfg} {s : St} (hr : (machine cfg).Reachable s) (hq : ∀ a, s.pc a = .idle) :
+    (s.flag = true ↔ s.q = []) ∧ ∀ u ∈ s.q, s.inPool u = true := by
+  have hi := inv_reachable hr
+  refine ⟨⟨hi.flagQ, fun he => ?_⟩, hi.inQ⟩
+  cases hf : s.flag
+  · have := hi.lagQ hf he
+    cases hl : s.lagF with
+    | none => exact absurd hl this
+    | some a => have := hi.lagPc a hl; simp [hq a] at this
+  · rfl
+
+/-! ### non-vacuity and rejected traces -/
+
+/-- a real interleaving on a shared spinlock pool: actor 2's pop reads `is_empty = 1` *after* actor 1 has linked unit 5
+but before it published `is_empty = 0` (stale pre-check: returns nothing); then a second pop spins on the held lock,
+gets it after the release and takes unit 5 -/
+def demoTrace : List Ev :=
+  [.call 1 (.push 5 false), .tas 1 false, .link 1 5 false, .call 2 (.pop false), .loadEmpty 2 true, .ret 2 (.popped []),
+   .storeEmpty 1 false, .call 2 (.pop false), .loadEmpty 2 false, .tas 2 true, .loadEmpty 2 false, .loadLock 2 true,
+   .storeIn 1 5 true, .clear 1, .loadEmpty 2 false, .loadLock 2 false, .tas 2 false, .ret 1 .unit, .take 2 5 true,
+   .storeEmpty 2 true, .storeIn 2 5 false, .clear 2, .ret 2 (.popped [5])]
+
+example : ((machine ⟨.spin, true⟩).run init demoTrace).map (fun s => (s.q, s.flag, s.lock, s.linOps, s.linOuts)) =
+    some ([], true, false, [.pushTail 5, .popHead], [.unit, .popped 5]) := by decide
+
+/-- `pool_mutual_exclusion` / `pool_mutation_requires_lock` talk about states that exist: after its successful
+test-and-set and the link step, actor 1 is inside the critical section, owns the set lock, and its next step is a mutation -/
+example : ∃ s, (machine ⟨.spin, true⟩).run init (demoTrace.take 3) = some s ∧ InCS (s.pc 1) ∧ s.owner = some 1 ∧
+    s.lock = true ∧ (step ⟨.spin, true⟩ s (.storeEmpty 1 false)).isSome = true :=
+  ⟨_, rfl, by decide, by decide, by decide, by decide⟩
+
+/-- `pool_quiescent_exact`: a quiescent state with a unit in the pool (flag 0, `is_in_pool` 1) -/
+example : ((machine ⟨.spin, true⟩).run init
+    [.call 1 (.push 5 false), .tas 1 false, .link 1 5 false, .storeEmpty 1 false, .storeIn 1 5 true, .clear 1, .ret 1 .unit]).map
+      (fun s => (s.q, s.flag, s.inPool 5, s.pc 1 == .idle)) = some ([5], false, true, true) := by decide
+
+/-- the hypotheses of `pool_pop_empty_only_if_empty_instant` are satisfiable (the empty-handed pop of `demoTrace`) -/
+example : ∃ s, (machine ⟨.spin, true⟩).run init (demoTrace.take 5) = some s ∧ s.pc 2 = .retp ∧
+    isPopLike (s.cur 2) = true ∧ (s.got 2).length < wants (s.cur 2) :=
+  ⟨_, rfl, by decide, by decide, by decide⟩
+
+/-- FIFO_WAIT: push_many of two units under the mutex, a pop_wait that finds the pool empty, waits and is woken,
+a pop_many(3) that comes back with the two units and an observed-empty third attempt -/
+example : ((machine ⟨.mutex, true⟩).run init
+    [.call 2 (.popWait false), .mlock 2, .loadEmpty 2 true, .condWait 2, .call 1 (.pushMany [7, 8] false), .mlock 1,
+     .link 1 7 false, .storeEmpty 1 false, .storeIn 1 7 true, .link 1 8 false, .storeIn 1 8 true, .signal 1, .wake 2,
+     .munlock 1, .ret 1 .unit, .mlock 2, .take 2 7 true, .storeIn 2 7 false, .munlock 2, .ret 2 (.popped [7]),
+     .call 2 (.popMany 3 false), .loadEmpty 2 false, .mlock 2, .take 2 8 true, .storeEmpty 2 true, .storeIn 2 8 false,
+     .take 2 0 true, .munlock 2, .ret 2 (.popped [8])]).map (fun s => (s.q, s.linOuts, s.sawEmpty 2)) =
+    some ([], [.unit, .unit, .popped 7, .popped 8, .popped 0], true) := by decide
+
+/-- **rejected**: linking a unit without owning the lock is not a run of the model (shared callbacks) … -/
+example : (machine ⟨.spin, true⟩).run init [.call 1 (.push 5 false), .link 1 5 false] = none := rfl
+
+/-- … nor is taking a unit while somebody else holds the lock … -/
+example : (machine ⟨.spin, true⟩).run init
+    [.call 1 (.push 5 false), .tas 1 false, .link 1 5 false, .storeEmpty 1 false, .storeIn 1 5 true,
+     .call 2 (.pop false), .loadEmpty 2 false, .take 2 5 true] = none := rfl
+
+/-- … nor a pop_many that reports a unit it did not take (two slots, one unit popped) … -/
+example : (machine ⟨.mutex, true⟩).run init
+    [.call 1 (.push 5 false), .mlock 1, .link 1 5 false, .storeEmpty 1 false, .storeIn 1 5 true, .signal 1, .munlock 1,
+     .ret 1 .unit, .call 2 (.popMany 2 false), .loadEmpty 2 false, .mlock 2, .take 2 5 true, .storeEmpty 2 true,
+     .storeIn 2 5 false, .take 2 0 true, .munlock 2, .ret 2 (.popped [5, 0])] = none := rfl
+
+/-- … nor overlapping calls on a private pool (ABT_POOL_ACCESS_PRIV contract) -/
+example : (machine ⟨.spin, false⟩).run init [.call 1 (.push 5 false), .call 2 (.pop false)] = none := rfl
+
+/-- private callbacks, one caller: push then pop without any lock operation is a run -/
+example : ((machine ⟨.spin, false⟩).run init
+    [.call 1 (.push 5 true), .link 1 5 true, .storeEmpty 1 false, .storeIn 1 5 true, .ret 1 .unit,
+     .call 1 (.pop true), .take 1 5 false, .storeEmpty 1 true, .storeIn 1 5 false, .ret 1 (.popped [5])]).map
+      (fun s => (s.q, s.linOps)) = some ([], [.pushHead 5, .popTail]) := by decide
+
+/-! ### the lock discipline of the generated table -/
+
+open ArgoVerif.Gen.PoolEnds in
+/-- **every queue call of a callback installed for a shared access mode is made under the pool's lock.**  Over the table
+regenerated from fifo.c / fifo_wait.c / randws.c on every run (tools/poolgen.py: per call site, whether it lies between
+`ABTD_spinlock_acquire` / a successful `thread_queue_acquire_spinlock_if_not_empty` / `pthread_mutex_lock` and the
+release): for every access mode but PRIV, for FIFO_WAIT in every mode, and for pop_wait / pop_timedwait in every mode, each
+`thread_queue_push_* / pop_* / remove` call site is locked.  Installing a lock-free callback for SPSC / MPSC / SPMC / MPMC,
+or moving a queue call out of the critical section, makes this fail. -/
+theorem table_lock_discipline : ∀ e ∈ table,
+    (e.access ≠ .priv ∨ e.kind = .fifoWait ∨ e.slot = .popWait ∨ e.slot = .popTimedwait) →
+    e.locked.length = e.sites.length ∧ e.locked.all id = true := by decide
+
+/-- the configuration of `Model.PoolConc` the property demands for a pool kind × access mode -/
+def specCfg (k : Kind) (a : Access) : Cfg :=
+  ⟨if k = .fifoWait then .mutex else .spin, k = .fifoWait || a != .priv⟩
+
+open ArgoVerif.Gen.PoolEnds in
+/-- do the push / pop / push_many / pop_many / remove callbacks the table installs for `k × a` take the lock? -/
+def tableShared (k : Kind) (a : Access) : Bool :=
+  [Slot.push, .pop, .pushMany, .popMany, .remove].all fun sl =>
+    (lookup table k a sl).any fun e => e.locked.all id && e.locked.length == e.sites.length
+
+/-- **the code's dispatch is the model's configuration**: for every kind × access mode the callbacks installed by
+`ABTI_pool_get_*_def` are lock-taking exactly when `Model.PoolConc` is instantiated with `shared = true` for it, i.e. the
+trace validation of T3 (which uses `specCfg`) and the theorems above talk about the configuration the code really uses -/
+theorem table_matches_model_cfg : ∀ k ∈ Kind.all, ∀ a ∈ Access.all, tableShared k a = (specCfg k a).shared := by decide
+
+example : specCfg .fifo .spsc = ⟨.spin, true⟩ ∧ specCfg .randws .priv = ⟨.spin, false⟩ ∧ specCfg .fifoWait .priv = ⟨.mutex, true⟩ := by
+  decide
 
 end ArgoVerif.Props.C07
